@@ -427,6 +427,38 @@ def replay_obj(model, hs, res, what):
             "expected": what}
 
 
+def distributed_slice(chk, quick):
+    """Bulk computation through the container on P > 1 ranks (harness h_c06 under mpiexec): every element the container lists
+    must be evaluable on every rank and equal the single-rank value, for rank counts that do and do not divide the number
+    of stored elements (split computation assigns elements to colours of ranks).  Termination is C06's business."""
+    import C06
+    h = pv.build_harness("h_c06")
+    fr = " ".join("%d %d %d" % f for f in C06.FREQS[:5])
+    nf = 5
+    for (P, nc) in ([(3, 2), (2, 3), (3, 4)] if quick else [(3, 2), (2, 3), (3, 4), (5, 2), (5, 3), (4, 3), (6, 4), (7, 5)]):
+        qs = C06.QUADS[:nc]
+        cmds = "ham\nc2 1 0 %d %s %d %s\n" % (len(qs), " ".join("%d %d %d %d" % q for q in qs), nf, fr)
+        rc, ranks, err = C06.launch(h, 1, cmds, threads=1, timeout=120)
+        ref = C06.parse(ranks[0])
+        if rc != 0 or not ref["done"]:
+            chk.tie_broken("h_c06 single-rank reference (C13 distributed slice)", "rc=%s %s" % (rc, err))
+            continue
+        rc, ranks, err = C06.launch(h, P, cmds, threads=1, timeout=60)
+        chk.case("mpi %d %d" % (P, nc), "distributed bulk computation P=%d stored=%d %s" % (P, nc, "P|n" if nc % P == 0 else "P!|n"), True, None)
+        if rc != 0:
+            chk.notes.append("distributed slice: launch P=%d with %d components ended with rc=%s (termination is decided by C06)" % (P, nc, rc))
+            continue
+        for r in sorted(ranks):
+            o = C06.parse(ranks[r])
+            for k in ref["eval"]:
+                if not C06.close(o["eval"].get(k, []), ref["eval"][k]):
+                    chk.violation("distributed-evaluation P=%d stored=%d" % (P, nc),
+                                  "after computeAll(split) on %d ranks with %d stored elements, rank %d evaluates listed element %s to %s, the single-rank run gives %s"
+                                  % (P, nc, r, "".join(k), o["eval"].get(k, ["(not evaluable)"])[:4], ref["eval"][k][:4]),
+                                  {"harness": "h_c06", "P": P, "commands": cmds, "model": C06.MODEL, "threads": 1})
+                    break
+
+
 def run(chk):
     quick = chk.tier == "quick"
     ok, log = chk.prove(["extract/Extract_C13.vo"])
@@ -581,6 +613,7 @@ def run(chk):
         # the library is the unrepaired variant but no generated history exposed a violation (cannot happen while the corpus is run)
         chk.tie_broken("variant", "library behaves as the unrepaired model but no violating history was found")
 
+    distributed_slice(chk, chk.tier == "quick")
     chk.rule = ("histories of fill / prepareAll / computeAll(split|nosplit) / lookup / prepare / compute / evaluate calls: a fixed corpus (incl. the witnesses of "
                 "the *_refuted theorems) plus random histories over quadruples from a small index subset (25% with equal annihilation or creation indices, "
                 "75% of the on-demand and evaluated keys are aliases of keys used before, repeated prepareAll with the same and with other sets, empty set = all "
